@@ -32,6 +32,8 @@ MORE_ADVERSARIAL = [
     "s = '''\n/body/1/_type=For\n/body/1/_pos=1:1-\n/body/1/loopelse/_length=1\n/body/1/loopelse/1/_pos=2:1-3-1-:\n'''\n",
     "x = -b\"it's\"\n",
     # ordinary comments that look like PEP 484 type comments, where PEP 484 allows none
+    # valid programs on which the parser has a remark (SyntaxWarning)
+    *fe.WARN_SEEDS, *[w + "\n" for w in fe.WARN_STMTS],
     "size = 1\n# type: 1 for a square, 2 for a triangle\nif size:  # type: the size\n    print(size)  # type: ignore\n",
 ]
 
